@@ -2,7 +2,7 @@
    satisfies c07_holds. *)
 From Boltons Require Import Lib.Prelude Lib.C07_Str Spec.C07_Spec Gen.C07_Gen Model.C07_Model
      Check.C07_Check Proofs.C07_StrLemmas Proofs.C07_Rds Proofs.C07_Resolve Proofs.C07_Parse
-     Proofs.C07_Navigate Proofs.C07_Text Proofs.C07_Refine Proofs.C07_Case Proofs.C07_CaseRefine
+     Proofs.C07_Navigate Proofs.C07_Text Proofs.C07_Query Proofs.C07_Refine Proofs.C07_Case Proofs.C07_CaseRefine
      Proofs.C07_EmptyAuth.
 Open Scope N_scope.
 
@@ -109,25 +109,41 @@ Proof.
   apply resolve_clean.
 Qed.
 
+Lemma ea_query b r : wf_base_ea b -> wf_ref r ->
+  spec_query (to_text b) (to_text r) (to_text (navigate_rel b r)) = true.
+Proof.
+  intros W Wr. pose proof (navigate_rel_ea_wf b r W Wr) as Wn.
+  destruct (ea_facts b (proj1 W)) as (_ & _ & _ & _ & Tb & Ub).
+  destruct (ea_facts _ Wn) as (_ & _ & _ & _ & Tn & Un).
+  destruct (ref_facts r Wr) as (_ & Tr & Ur).
+  apply (spec_query_of _ _ _ (uri_ea (navigate_rel b r))).
+  - rewrite Tb, Tr, (parse_recompose _ Ub), (parse_recompose _ Ur). apply ea_transform; assumption.
+  - rewrite Tn, (parse_recompose _ Un). reflexivity.
+Qed.
+
 (* second step and everything after it, from a first result n1 that is either kind of base *)
 Lemma second_step t1 n1 d2 :
   (wf_base_ea n1 /\ t1 = to_text n1) \/ (wf_base n1 /\ t1 = canon (to_text n1)) ->
   wf_ref d2 \/ wf_base d2 ->
   spec_navigate t1 (to_text d2) (to_text (navigate_url n1 d2)) = true /\
-  spec_clean (to_text (navigate_url n1 d2)) = true.
+  spec_clean (to_text (navigate_url n1 d2)) = true /\
+  spec_query t1 (to_text d2) (to_text (navigate_url n1 d2)) = true.
 Proof.
   intros [[Wn ->]|[Wn ->]] W2.
   - destruct W2 as [Wd|Wd]; unfold navigate_url.
-    + rewrite (wf_ref_relative d2 Wd). split.
+    + rewrite (wf_ref_relative d2 Wd). split; [|split].
       * apply strict_implies, navigate_empty_authority; assumption.
       * apply ea_spec_clean; [apply navigate_rel_ea_wf; assumption | apply navigate_rel_ea_clean; assumption].
-    + rewrite (wf_base_absolute d2 Wd). split.
+      * apply ea_query; assumption.
+    + rewrite (wf_base_absolute d2 Wd). split; [|split].
       * apply strict_implies. unfold spec_navigate_strict. rewrite (abs_dest_any_base _ d2 Wd). apply str_eqb_refl.
       * apply (spec_clean_wf _ (normalize_wf d2 Wd)). unfold normalize. cbn [u_path]. apply resolve_clean.
-  - split.
+      * apply abs_dest_query, Wd.
+  - split; [|split].
     + rewrite <- (rootify_text _ Wn). unfold spec_navigate.
       rewrite (navigate_url_target _ d2 (rootify_wf _ Wn) W2), (navigate_url_rootify _ d2 Wn W2). apply str_eqb_refl.
     + apply (spec_clean_wf _ (navigate_url_wf n1 d2 Wn W2) (navigate_url_clean n1 d2 Wn W2)).
+    + rewrite <- (rootify_text _ Wn). apply query_second_step; assumption.
 Qed.
 
 Theorem ea_observation_satisfies_spec b d1 d2 unrooted f1 f2 bt :
@@ -143,20 +159,20 @@ Proof.
   - assert (E1 : navigate_url b d1 = navigate_rel b d1) by (unfold navigate_url; rewrite (wf_ref_relative d1 Wd1); reflexivity).
     rewrite !E1.
     pose proof (navigate_rel_ea_base b d1 W Wd1) as Wn1.
-    rewrite (strict_implies _ _ _ (navigate_empty_authority b d1 W Wd1)).
+    rewrite (strict_implies _ _ _ (navigate_empty_authority b d1 W Wd1)), (ea_query b d1 W Wd1).
     rewrite (ea_spec_clean _ (proj1 Wn1) (navigate_rel_ea_clean b d1 W Wd1)).
-    unfold spec_chain. rewrite (ea_target b d1 W Wd1).
-    destruct (second_step _ _ d2 (or_introl (conj Wn1 eq_refl)) W2) as [S2 C2].
-    rewrite S2, C2. reflexivity.
+    unfold spec_chain, spec_query_chain. rewrite (ea_target b d1 W Wd1).
+    destruct (second_step _ _ d2 (or_introl (conj Wn1 eq_refl)) W2) as (S2 & C2 & Q2).
+    rewrite S2, C2, Q2. reflexivity.
   - assert (E1 : navigate_url b d1 = normalize d1) by (unfold navigate_url; rewrite (wf_base_absolute d1 Wd1); reflexivity).
     rewrite !E1.
     pose proof (normalize_wf d1 Wd1) as Wn1.
     assert (N1 : spec_navigate (to_text b) (to_text d1) (to_text (normalize d1)) = true).
     { apply strict_implies. unfold spec_navigate_strict. rewrite (abs_dest_any_base _ d1 Wd1). apply str_eqb_refl. }
-    rewrite N1.
+    rewrite N1, (abs_dest_query (to_text b) d1 Wd1).
     assert (C1 : spec_clean (to_text (normalize d1)) = true).
     { apply (spec_clean_wf _ Wn1). unfold normalize. cbn [u_path]. apply resolve_clean. }
-    rewrite C1. unfold spec_chain. rewrite (abs_dest_any_base _ d1 Wd1).
-    destruct (second_step _ _ d2 (or_intror (conj Wn1 eq_refl)) W2) as [S2 C2].
-    rewrite S2, C2. reflexivity.
+    rewrite C1. unfold spec_chain, spec_query_chain. rewrite (abs_dest_any_base _ d1 Wd1).
+    destruct (second_step _ _ d2 (or_intror (conj Wn1 eq_refl)) W2) as (S2 & C2 & Q2).
+    rewrite S2, C2, Q2. reflexivity.
 Qed.
